@@ -607,6 +607,43 @@ def _present_none_and_falsy_values(ctx):
                 check_program(ctx, _Fixed(falsy), kind, fields, MODES)
 
 
+def _raw_builtin_factories(ctx):
+    """default_factory=<the builtin class itself> (list, dict, set, frozenset, tuple, str, bytes, bytearray, int, float, bool, complex, deque,
+    OrderedDict): the loader may render such a factory as a literal, so the absent field must hold exactly what the factory makes - same
+    type, equal value, a fresh object for every load when it is mutable. The other workloads wrap every factory in a call counter, which hides
+    the builtin from that rendering (seeded change: a table of factory literals with bytearray -> b"")."""
+    import collections  # noqa: PLC0415
+    from dataclasses import field as dfield, make_dataclass  # noqa: PLC0415
+
+    from adaptix import Retort  # noqa: PLC0415
+
+    factories = [list, dict, set, frozenset, tuple, str, bytes, bytearray, int, float, bool, complex, collections.deque, collections.OrderedDict, type(None), object]
+    kinds = {"dataclass": lambda name, fs: make_dataclass(name, [("a", int, dfield(default=0))] + [(f"f{i}", Any, dfield(default_factory=f)) for i, f in enumerate(fs)]),
+             "attrs": lambda name, fs: attrs.make_class(name, {"a": attrs.field(default=0), **{f"f{i}": attrs.field(factory=f) for i, f in enumerate(fs)}})}
+    for kind, mk in kinds.items():
+        for group in (factories, list(reversed(factories)), *[[f] for f in factories]):
+            cls = mk(f"RawFac_{kind}_{len(group)}_{next(_n)}", group)
+            for dt, sc in MODES[:3]:
+                r = Retort(debug_trail=dt, strict_coercion=sc)
+                one, two = attempt(r.load, {}, cls), attempt(r.load, {"a": 1}, cls)
+                ctx.evaluated(("raw-builtin-factory", kind, tuple(f.__name__ for f in group), dt.name, sc), nontrivial=True)
+                ctx.count("loads", 2)
+                if one.kind != "ok" or two.kind != "ok":
+                    ctx.violation(f"load-failed:{kind}:raw-builtin-factory", f"{kind} with default_factory in {[f.__name__ for f in group]}: {one!r:.120} / {two!r:.120}", {"kind": kind})
+                    continue
+                for i, f in enumerate(group):
+                    v1, v2, want = getattr(one.value, f"f{i}"), getattr(two.value, f"f{i}"), f()
+                    if f is object:
+                        ok = type(v1) is object and v1 is not v2
+                    else:
+                        ok = type(v1) is type(want) and v1 == want and type(v2) is type(want)
+                    if not ok:
+                        ctx.violation(f"default-look-alike:factory:{f.__name__}->{type(v1).__name__}", f"{kind} model, field with default_factory={f.__name__} (absent): loaded object holds {v1!r} "
+                                      f"({type(v1).__name__}), the factory makes {want!r} ({type(want).__name__}) [{mode_name(dt, sc)}]", {"kind": kind, "factory": f.__name__})
+                    elif isinstance(v1, _MUT + (collections.deque,)) and v1 is v2:
+                        ctx.violation(f"default-shared-between-loads:{kind}:raw-builtin-factory", f"{kind} model: two loads share the object made by default_factory={f.__name__}", {"kind": kind, "factory": f.__name__})
+
+
 def _attrs_parameters_named_unlike_their_attributes(ctx):
     """attrs lets a constructor PARAMETER be named unlike the attribute (private `_count` -> `count`, alias=), and a
     Factory(takes_self=True) default can only be evaluated by the constructor, so such a field is passed only when present - under the
@@ -642,7 +679,7 @@ def _attrs_parameters_named_unlike_their_attributes(ctx):
 
 
 DIRECTED = {"default-pool-sweep": _pool_sweep, "several-lookalike-defaults-in-one-model": _several_lookalike_defaults_in_one_model,
-            "lookalike-container-defaults": _lookalike_container_defaults, "present-none-and-falsy-values": _present_none_and_falsy_values,
+            "lookalike-container-defaults": _lookalike_container_defaults, "present-none-and-falsy-values": _present_none_and_falsy_values, "raw-builtin-factories": _raw_builtin_factories,
             "attrs-parameters-named-unlike-their-attributes": _attrs_parameters_named_unlike_their_attributes}
 from ..suite_leg import make as _suite_leg  # noqa: E402
 
